@@ -491,3 +491,77 @@ AFTER_HEAD = [
 
 for _m, _names, _fn in AFTER_HEAD:
     globals()["AfterHead_" + _m] = _mk(_m, _names, _fn, "AfterHeadPhase")
+
+
+# ------------------------------------------------------------------------------------------- "in table" insertion mode
+def _cleared_then_inserted(old, self, token, result, mode):
+    return (result is None and ops_are(self, [("call", "clearStackToTableContext", None), ("insert", token)])
+            and grew_by(old, self, 1) and same_object(self.parser.phase, self.parser.phases[mode]))
+
+
+# --- caption: clear the stack back to a table context; marker onto the active formatting elements; insert; "in caption"
+def spec_it_caption(old, self, token, result):
+    afe = self.tree.activeFormattingElements
+    return (_cleared_then_inserted(old, self, token, result, "inCaption") and afe[-1] is None
+            and len(afe) == len(old.self.tree.activeFormattingElements) + 1)
+
+
+# --- colgroup: clear the stack; insert; "in column group"
+def spec_it_colgroup(old, self, token, result):
+    return _cleared_then_inserted(old, self, token, result, "inColumnGroup")
+
+
+# --- tbody, tfoot, thead: clear the stack; insert; "in table body"
+def spec_it_row_group(old, self, token, result):
+    return _cleared_then_inserted(old, self, token, result, "inTableBody")
+
+
+# --- col: act as if <colgroup> had been seen, then reprocess
+def spec_it_col(old, self, token, result):
+    return same_object(result, token) and ops_are(self, [("call", "startTagColgroup", "colgroup")])
+
+
+# --- td, th, tr: act as if <tbody> had been seen, then reprocess
+def spec_it_imply_tbody(old, self, token, result):
+    return same_object(result, token) and ops_are(self, [("call", "startTagRowGroup", "tbody")])
+
+
+# --- table: parse error; with a table in table scope act as for </table> and reprocess; otherwise ignore (fragment case)
+def spec_it_table(old, self, token, result):
+    if not ops_are(self, [("call", "processEndTag", "table")]):
+        return False
+    if stack_in_scope("table", "table", old.self.tree.openElements):
+        return same_object(result, token)
+    return result is None
+
+
+# --- form: parse error; ignored while the form element pointer is set; else insert, point the pointer at it, pop it at once
+def spec_it_form(old, self, token, result):
+    if old.self.tree.formPointer is not None:
+        return result is None and ops_are(self, []) and grew_by(old, self, 0)
+    return (result is None and ops_are(self, [("insert", token)]) and grew_by(old, self, 0)
+            and self.tree.formPointer is not None)
+
+
+# --- </table>: ignored (parse error) without a table in table scope; else pop up to and including the table, reset the mode
+def spec_it_end_table(old, self, token, result):
+    if not stack_in_scope("table", "table", old.self.tree.openElements):
+        return result is None and grew_by(old, self, 0) and same_object(self.parser.phase, old.self.parser.phase)
+    return (result is None and len(self.tree.openElements) < len(old.self.tree.openElements)
+            and not same_object(self.parser.phase, old.self.parser.phase))
+
+
+IN_TABLE = [
+    ("startTagCaption", ["caption"], spec_it_caption),
+    ("startTagColgroup", ["colgroup"], spec_it_colgroup),
+    ("startTagRowGroup", ["tbody", "tfoot", "thead"], spec_it_row_group),
+    ("startTagCol", ["col"], spec_it_col),
+    ("startTagImplyTbody", ["td", "th", "tr"], spec_it_imply_tbody),
+    ("startTagTable", ["table"], spec_it_table),
+    ("startTagForm", ["form"], spec_it_form),
+    ("endTagTable", ["table"], spec_it_end_table),
+    ("endTagIgnore", ["body", "caption", "col", "colgroup", "html", "tbody", "td", "tfoot", "th", "thead", "tr"], spec_head_end_other),
+]
+
+for _m, _names, _fn in IN_TABLE:
+    globals()["InTable_" + _m] = _mk(_m, _names, _fn, "InTablePhase")
